@@ -162,7 +162,41 @@ func (t *ActiveTable) Delete(ctx context.Context, req *regattapb.DeleteRangeRequ
 	return &regattapb.DeleteRangeResponse{Deleted: r.ResponseDeleteRange.Deleted, PrevKvs: r.ResponseDeleteRange.PrevKvs, Header: &regattapb.ResponseHeader{Revision: rev}}, nil
 }
 
+// validateTxnOps applies the same key and value limits to the operations nested in a transaction
+// as the standalone Range, Put and Delete operations apply.
+func validateTxnOps(ops []*regattapb.RequestOp) error {
+	for _, op := range ops {
+		var k, v []byte
+		switch o := op.GetRequest().(type) {
+		case *regattapb.RequestOp_RequestRange:
+			k = o.RequestRange.GetKey()
+		case *regattapb.RequestOp_RequestPut:
+			k, v = o.RequestPut.GetKey(), o.RequestPut.GetValue()
+		case *regattapb.RequestOp_RequestDeleteRange:
+			k = o.RequestDeleteRange.GetKey()
+		default:
+			continue
+		}
+		if len(k) == 0 {
+			return serrors.ErrEmptyKey
+		}
+		if len(k) > key.LatestVersionLen {
+			return serrors.ErrKeyLengthExceeded
+		}
+		if len(v) > MaxValueLen {
+			return serrors.ErrValueLengthExceeded
+		}
+	}
+	return nil
+}
+
 func (t *ActiveTable) Txn(ctx context.Context, req *regattapb.TxnRequest) (*regattapb.TxnResponse, error) {
+	if err := validateTxnOps(req.Success); err != nil {
+		return nil, err
+	}
+	if err := validateTxnOps(req.Failure); err != nil {
+		return nil, err
+	}
 	// Do not propose read-only transactions through the log
 	if req.IsReadonly() {
 		return readTable[*regattapb.TxnResponse](t, ctx, true, req)
